@@ -601,6 +601,9 @@ func (c *Ctx) plyCaseEP(g plyGenMesh, w plyWCfg, formats []ply.Format, agreeOp s
 		// the written file loads to the same mesh through every public entry point and reader type …
 		c.Emit("c04.holds.entrypoints_agree", rs+" | "+plyEntryResults(data, fullEntries), "true")
 		c.Emit("c04.holds.header_entrypoints_agree", plyHeaderEntryResults(data), "true")
+		if fullEntries {
+			c.plyHeaderCuts("c04.holds.header_cut_rejected", data)
+		}
 		if w.isDefault {
 			// … and ply.Save (file) stores exactly the bytes ply.Write produces
 			saved := Guard(func() string {
